@@ -6,6 +6,7 @@ package main
 
 import (
 	"bufio"
+	"bytes"
 	"crypto/sha256"
 	"encoding/hex"
 	"encoding/json"
@@ -199,6 +200,23 @@ var runningH *H
 var runningOut string
 var runningT0 time.Time
 
+// precondition records (once per message) that the generator could not build one of its genuine
+// inputs — the reference implementation and the library disagree about a genuine message — and lets the
+// campaign go on, so that its oracles can still find a concrete failing input.
+var preconditionSeen = map[string]bool{}
+
+func precondition(f string, a ...interface{}) {
+	msg := fmt.Sprintf(f, a...)
+	if runningH == nil || preconditionSeen[msg] {
+		return
+	}
+	preconditionSeen[msg] = true
+	h := runningH
+	h.res.Failures = append(h.res.Failures, Failure{Kind: "correspondence", Key: "generator-precondition",
+		Desc: "the campaign could not build one of its inputs: " + msg, Case: Case{Op: "generator", A: map[string]string{"what": msg}}})
+	h.res.FailureCounts["correspondence:generator-precondition"]++
+}
+
 func fatal(f string, a ...interface{}) {
 	msg := fmt.Sprintf(f, a...)
 	fmt.Fprintf(os.Stderr, "corr: %s\n", msg)
@@ -349,4 +367,35 @@ func main() {
 	default:
 		fatal("unknown command")
 	}
+}
+
+// content: n bytes of message content — uniformly random two times out of three, otherwise runs of
+// 0x00, 0xff and one repeated byte of random lengths between short random stretches (real payloads have
+// zero padding, sparse files, repeated records; all-random content never exercises leading-zero blocks of
+// the base-62 codec or equal chunks)
+func (h *H) content(n int) []byte {
+	if n == 0 || h.rng.Intn(3) != 0 {
+		return h.rng.Bytes(n)
+	}
+	out := make([]byte, 0, n)
+	for len(out) < n {
+		l := 1 + h.rng.Intn(80)
+		if h.rng.Intn(8) == 0 {
+			l = 1 + h.rng.Intn(3000)
+		}
+		if l > n-len(out) {
+			l = n - len(out)
+		}
+		switch h.rng.Intn(4) {
+		case 0:
+			out = append(out, h.rng.Bytes(l)...)
+		case 1:
+			out = append(out, bytes.Repeat([]byte{0xff}, l)...)
+		case 2:
+			out = append(out, bytes.Repeat([]byte{byte(h.rng.Intn(256))}, l)...)
+		default:
+			out = append(out, make([]byte, l)...)
+		}
+	}
+	return out
 }
